@@ -158,6 +158,23 @@ Definition conn_run (chunks : list (list N)) : conn := fold_left conn_read chunk
 Definition conn_read_ev (c : conn) (ev : list N * bool) : conn := conn_read c (fst ev).
 Definition conn_run_ev (events : list (list N * bool)) : conn := fold_left conn_read_ev events conn_init.
 
+(* conn.Write may fail after the transport accepted only the first k bytes (a write timeout, a
+   reset): `if _, err := conn.Write(toSend); err != nil { c.onErrorFunc(err); return }` -- the
+   k bytes are on the wire, nothing is retried, the connection ends.  [conn_read_w c ev (Some k)] is
+   the turn of the loop in which the Write (if this read causes one) fails that way; the flag says
+   that the loop ended by a failed write. *)
+Definition conn_read_w (c : conn) (ev : list N * bool) (fail : option nat) : conn * bool :=
+  let c' := conn_read_ev c ev in
+  match fail with
+  | None => (c', false)
+  | Some k =>
+      let sent := skipn (length (c_written c)) (c_written c') in   (* toSend of this turn *)
+      match sent with
+      | [] => (c', false)                                         (* toSend == nil: no Write *)
+      | _ => ({| c_buf := c_buf c'; c_written := c_written c ++ firstn k sent; c_status := Closed |}, true)
+      end
+  end.
+
 (* the states after each read, for the per-read observations *)
 Fixpoint conn_trace (c : conn) (chunks : list (list N)) : list conn :=
   match chunks with
